@@ -19,7 +19,7 @@ chk("C01", "model_checking",
     "All reachable quiescent states of every generated program (BFS to a fixpoint on the real library) x the full API alphabet x all request batches up to the bound x every choice vector with <= d non-default callback decisions; the well-formedness invariant is evaluated with the public queries at every state and with Control inside every update/react/query/guard callback. This is the quantifier of the property (all states, all requests, all callback decisions) within explicit bounds, which the literal-log tests cannot reach.",
     ENGINE_NOTE, "explicit-state model checking of the real implementation (BFS fixpoint + deviation-bounded DFS), invariant oracle", "DESIGN.md 3, 4 C01")
 chk("C02", "model_checking",
-    "Every edge of the same exhaustive exploration is compared with a reference semantics written from the property text (engine/refmodel.hpp): configuration equality for single requests, statement-level clauses for batches, resumable marks against delivered exit() callbacks, reset() vs first activation, empty step. traces_validated_against_impl = edges compared.",
+    "Every edge of the same exhaustive exploration is compared with a reference semantics written from the property text (engine/refmodel.hpp): configuration equality for single requests and for batches (map semantics: every request's path is kept unless a later one conflicts; one known finding, one not-judged class, see DESIGN 11.1/11.3) plus the statement-level clauses for batches, resumable marks against delivered exit() callbacks, reset() vs first activation, empty step. traces_validated_against_impl = edges compared.",
     ENGINE_NOTE + " Under-specified corners follow the weakest reading (DESIGN.md 3.4 policy).", "explicit-state model checking with a reference-model oracle on every edge", "DESIGN.md 3.4, 4 C02")
 chk("C03", "model_checking",
     "Every execution of the exhaustive exploration is extended to the destruction of the instance and a per-state lifecycle automaton (alternation, delivery only while entered, nesting, nothing entered at the end, this == &access<State>()) runs over the complete callback trace.",
